@@ -108,6 +108,16 @@ def optItemHex : Option Item → String
   | none => "none"
   | some x => itemHex x
 
+/-- min / max are determined only up to the comparator's equivalence: for floating types -0.0 prints as +0.0 -/
+def canonExtreme (ty : ItemType) (x : Item) : Item :=
+  match ty with
+  | .f32 => if x == [0, 0, 0, 0x80] then [0, 0, 0, 0] else x
+  | .f64 => if x == [0, 0, 0, 0, 0, 0, 0, 0x80] then [0, 0, 0, 0, 0, 0, 0, 0] else x
+  | _ => x
+
+def Content.canon (ty : ItemType) (c : Content) : Content :=
+  { c with min := c.min.map (canonExtreme ty), max := c.max.map (canonExtreme ty) }
+
 def Content.line (c : Content) : String :=
   let its := if c.items.isEmpty then "none"
              else ",".intercalate (c.items.map (fun p => itemHex p.1 ++ ":" ++ toString p.2))
